@@ -11,7 +11,7 @@ CHECKS = {
  "C07": dict(
    category="fault_enumeration",
    technique="deterministic simulation of single searches with limit-abort fault enumeration (every backtrack index / branch-stack depth) plus an in-VM progress monitor over logical time",
-   text="Every (pattern, text, start) of a seeded workload is first run fault-free under the hook's own counters, then aborted at every backtrack index 0..N+1 and every branch-stack capacity 0..P+1 (capped, then sampled) through the limit-override hook and, on a sample, through RegexBuilder::backtrack_limit. Oracle per clause: an aborted run returns the injected error kind or exactly the unlimited answer; limits at or above the measured need are transparent; a limit error is legitimate only if the hook's independent count reached the limit; no configuration (pc, ix, slots, aux stack) repeats between two backtracks (so the machine cannot spin). fault_enumeration because the abort points of each case are enumerated, the cases themselves are sampled.",
+   text="Every (pattern, text, start) of a seeded workload is first run fault-free under the hook's own counters, then aborted at every backtrack index 0..N+1 and every branch-stack capacity 0..P+1 (capped, then sampled) through the limit-override hook and, on a sample, through RegexBuilder (one builder re-used for several limits, and the builder's other options set before or after the limit). Oracle per clause: an aborted run returns the injected error kind or exactly the unlimited answer; limits at or above the measured need are transparent; a limit error is legitimate only if the hook's independent count reached the limit; no configuration (pc, ix, slots, aux stack) repeats between two backtracks (so the machine cannot spin). fault_enumeration because the abort points of each case are enumerated, the cases themselves are sampled.",
    note="Trusts: the answer of the fault-free run (C01/C02 are not decided here); the hook counters placed next to the VM's own (add-only lines). Workload texts are <= 8 characters (14 in a third of the thorough tier).",
    design="4.1"),
  "C08": dict(
@@ -29,13 +29,13 @@ CHECKS = {
  "C18": dict(
    category="exploration",
    technique="deterministic simulation of 2..16 caller threads under a seeded baton scheduler (real threads, one runs at a time, every hand-off drawn from the seed and recorded), self-reference oracle; plus a Miri many-seeds slice (second seeded scheduler, basic-block preemption, data-race detector) in both tiers",
-   text="Caller threads run seeded programs over the whole search API on one shared Regex and on clones; they can lose the CPU at every VM instruction, backtrack, delegate call and API/iterator seam, and the seeded scheduler decides every hand-off (uniform, PCT-like and operation-boundary policies, swarm-varied). A third of the scenarios also exercise the regex life cycle across threads (a thread drops a regex and compiles a sibling into a mailbox, others search with whatever is there). Every call must return exactly what the same call returns alone on a fresh Regex; no panic difference, no deadlock. The schedule is the replay file. Send/Sync/Clone are asserted at compile time. A small 3-thread program over the shipped (hook-free) library is additionally interpreted by Miri over a window of scheduler seeds (2x16 quick / 5x96 thorough); a failing Miri seed is the replay.",
-   note="Interleavings are explored at yield-point granularity; data races below that granularity exist only for unsafe code and are left to the Miri slice, which is small because Miri is slow (about 4 s per execution). regex-automata runs real code in both.",
+   text="Caller threads run seeded programs over the whole search API on one shared Regex and on clones; they can lose the CPU at every VM instruction, backtrack, delegate call and API/iterator seam, and the seeded scheduler decides every hand-off (uniform, PCT-like and operation-boundary policies, swarm-varied). A third of the scenarios also exercise the regex life cycle across threads (a thread drops a regex and compiles a sibling into a mailbox, others search with whatever is there). Every call must return exactly what the same call returns alone on a fresh Regex; no panic difference, no deadlock. The schedule is the replay file. Send/Sync/Clone are asserted at compile time. Small 3-thread programs over the shipped (hook-free) library (API rotation on a shared regex and an in-thread clone; handles and results dropped on different threads; every thread replacing with its own $-template) are additionally interpreted by Miri over a window of scheduler seeds (3x16 quick / 6x96 thorough); a failing Miri seed is the replay.",
+   note="Interleavings are explored at yield-point granularity; races below that granularity (unsafe code, or lock/unlock sequences between two yield points) are left to the Miri slice, which is small because Miri is slow (about 4 s per execution). regex-automata runs real code in both.",
    design="4.4"),
  "C20": dict(
    category="exploration",
    technique="deterministic simulation of rollback/commit histories against a whole-state-copy reference model, at the hooked State API and shadowing real VM runs, with capacity and limit faults",
-   text="Seeded legal operation histories (create/abandon alternative, write slot, aux push/pop, enter/commit atomic, raw cut, capacity faults) are executed against the VM's private State through the hook wrapper and against a model that keeps complete copies; slots, auxiliary stack, depth and return values are compared after every operation. The same model shadows real vm::run executions through the observer hook, adding bracket discipline (every EndAtomic commits, against its own BeginAtomic's marker and depth), negative-look-around unwinding to its own alternative, and result-slot equality, also under injected limit aborts.",
+   text="Seeded legal operation histories (create/abandon alternative, write slot, aux push/pop, enter/commit atomic, raw cut, capacity faults) are executed against the VM's private State through the hook wrapper and against a model that keeps complete copies; slots, auxiliary stack, depth and return values are compared after every operation. The same model shadows real vm::run executions through the observer hook, adding bracket discipline (every EndAtomic commits, against its own BeginAtomic's marker and depth), negative-look-around unwinding to its own alternative, result-slot equality, and the one caller-visible consequence that needs no reference matcher (a group inside a negative look-around is unset in every result), also under injected limit aborts.",
    note="Trusts the read-only view of State (slots, live aux stack, depth). A generated run that consumes a conditional's leaked atomic marker (listed known finding, recognised by its call-site signature) is counted and not checked past that point.",
    design="4.5"),
 }
